@@ -85,7 +85,8 @@ func DefaultFormatter(buf []byte, n Number, f Format) ([]byte, error) {
 	b.WriteString(toTens(r, f))
 	b.WriteString(toUnits(i, f))
 	if f&FormatLowerCase != 0 {
-		return toLower(b.Bytes()), nil
+		toLower(b.Bytes()[len(buf):]) // lower only appended part, passed buffer content must stay untouched
+		return b.Bytes(), nil
 	}
 	return b.Bytes(), nil
 }
